@@ -72,7 +72,7 @@ func C08Worker(args []string) int {
 	T, _ := strconv.Atoi(args[1])
 	K, _ := strconv.Atoi(args[2])
 	B, _ := strconv.Atoi(args[3])
-	cfg := explore.Config{World: w, Bounds: explore.Bounds{T: T, K: K, B: B}, Dedupe: true, Workers: 2, Opts: explore.Opts{NoDisk: true},
+	cfg := explore.Config{World: w, Bounds: explore.Bounds{T: T, K: K, B: B}, Dedupe: true, Workers: 1, Opts: explore.Opts{NoDisk: true}, // one worker: the set of explored histories is then a function of the node's behaviour only
 		MenuFilter: func(depth int, prefix []int, item int) bool { return w.Menu[item].Replay == 0 && !w.Menu[item].StealSig },
 		OnTransition: func(t *explore.Transition, newState bool) []explore.Violation {
 			mu.Lock()
@@ -171,7 +171,7 @@ func init() {
 		dir := filepath.Join(report.Root, ".scratch", "c08", fmt.Sprint(os.Getpid()))
 		_ = os.MkdirAll(dir, 0o755)
 		defer os.RemoveAll(dir)
-		var transitions, states int64
+		var transitions, states, rerun int64
 		distinct := map[string]bool{}
 		var samples []interface{}
 		exhaustive := true
@@ -232,6 +232,32 @@ func init() {
 					if a == b {
 						continue
 					}
+					if a == "" || b == "" {
+						// the history was explored in one configuration only (its state was reached
+						// through another history first there): execute it in the other one
+						lack := cfgs[0]
+						if b == "" {
+							lack = cfgs[i]
+						}
+						var h explore.History
+						hj, _ := json.Marshal(parseHistory(k, h))
+						f := filepath.Join(dir, fmt.Sprintf("%s-one-%d.txt", w.world, i))
+						if err := runC08Worker(lack, []string{w.world, "one", string(hj), f}); err != nil {
+							c.Rep.Add(report.Item{Property: "C08", Signature: "worker-died", Detail: err.Error(), Engine: "seeds", Replay: c08Replay{World: w.world, History: parseHistory(k, h), A: cfgs[0], B: cfgs[i]}})
+							continue
+						}
+						bs, _ := os.ReadFile(f)
+						line := strings.TrimSpace(string(bs))
+						if a == "" {
+							a = line
+						} else {
+							b = line
+						}
+						rerun++
+						if a == b {
+							continue
+						}
+					}
 					what := "history-set"
 					if a != "" && b != "" {
 						fa, fb := strings.Split(a, "\t"), strings.Split(b, "\t")
@@ -255,6 +281,7 @@ func init() {
 		cv["transitions"] = transitions
 		cv["traces_validated_against_impl"] = transitions
 		cv["configurations"] = len(cfgs)
+		cv["histories_executed_singly_in_the_other_configuration"] = rerun
 		cv["evaluations"] = transitions
 		cv["distinct_nontrivial"] = int64(len(distinct))
 		cv["samples"] = samples
